@@ -1,7 +1,7 @@
 #!/bin/bash
 # tools/sens_all.sh — the complete sensitivity pass with the checks as they are now: every fix: commit reverted,
 # every seeded change, every hand-written mutant; each against the property's own quick check (and for the
-# fix reverts the checks listed with them). Logs go to sensitivity/results/. Takes ~1.5 h.
+# fix reverts the checks listed with them). Logs go to sensitivity/results/. Takes ~2 h.
 cd "$(dirname "$0")/.."
 export SAVE_REGRESS=1
 R=sensitivity/results
@@ -19,6 +19,8 @@ rev metadata-outer c6ad4e7 C09
 rev lookup-panic 87bb5ce C16 C09
 rev proof-position 2fcea50 C12
 rev poison 8a89949 C16 C20
+rev metadata-node-subject 2be64ee C09 C02
+rev outer-signature-obscured 9f2b679 C09 C02
 # the two recipient fixes touch the same lines; the later one is reverted alone, then both together
 rev stale-recipient 8804494 C10
 git -C /repo diff 3a97a18~1 8804494 -- src/extension/recipient.rs > /tmp/both-recipient.diff
